@@ -1,6 +1,6 @@
 /-
   PINS of property C06: the decision tokens of every item the property is anchored in
-  (properties.jsonl `anchors` + tools/anchor_extra.json), as they were in /repo at b30ed81 when the
+  (properties.jsonl `anchors` + tools/anchor_extra.json), as they were in /repo at 32de816 when the
   model was validated against the source.  Written by tools/pin_anchors.py; the right-hand sides are
   compared by the kernel with lean/Chrono/Extracted/Anchors.lean, which tools/extractors/anchors.py
   regenerates from /repo's working tree on every check.  A theorem that fails here means: anchored
@@ -9,6 +9,10 @@
 import Chrono.Extracted.Anchors
 namespace Chrono.Pins.C06
 open Chrono.Extracted.Anchors
+
+/-- src/lib.rs:fn expect -/
+theorem src_lib_rs_fn_expect : C06_src_lib_rs_fn_expect =
+    ["<", "T", "Copy", ">", "v1", "Option", "<", "T", ">", "v2", "&", "str", "->", "T", "match", "v1", "Some(", "v3", "=>", "v3", "None", "=>", "panic!(", "\"{}\"", "v2"] := by decide +kernel
 
 /-- src/time_delta.rs:const MAX -/
 theorem src_time_delta_rs_const_MAX : C06_src_time_delta_rs_const_MAX =
@@ -38,13 +42,45 @@ theorem src_time_delta_rs_fn_checked_mul : C06_src_time_delta_rs_fn_checked_mul 
 theorem src_time_delta_rs_fn_checked_sub : C06_src_time_delta_rs_fn_checked_sub =
     ["&", "self", "v1", "&", "TimeDelta", "->", "Option", "<", "TimeDelta", ">", "v2", "self", "v2", "-", "v1", "v2", "v3", "self", "v3", "-", "v1", "v3", "if", "v3", "<", "0", "v3", "+=", "NANOS_PER_SEC", "v2", "-=", "1", "TimeDelta", "new(", "v2", "v3", "as", "u32"] := by decide +kernel
 
+/-- src/time_delta.rs:fn days -/
+theorem src_time_delta_rs_fn_days : C06_src_time_delta_rs_fn_days =
+    ["v1", "i64", "->", "TimeDelta", "expect(", "TimeDelta", "try_days(", "v1", "\"…\""] := by decide +kernel
+
+/-- src/time_delta.rs:fn div_mod_floor_64 -/
+theorem src_time_delta_rs_fn_div_mod_floor_64 : C06_src_time_delta_rs_fn_div_mod_floor_64 =
+    ["v1", "i64", "v2", "i64", "->", "i64", "i64", "v1", "div_euclid(", "v2", "v1", "rem_euclid(", "v2"] := by decide +kernel
+
 /-- src/time_delta.rs:fn from_std -/
 theorem src_time_delta_rs_fn_from_std : C06_src_time_delta_rs_fn_from_std =
     ["v1", "Duration", "->", "Result", "<", "TimeDelta", "OutOfRangeError", ">", "if", "v1", "as_secs(", ">", "MAX", "v2", "as", "u64", "return", "Err(", "OutOfRangeError(", "match", "TimeDelta", "new(", "v1", "as_secs(", "as", "i64", "v1", "subsec_nanos(", "Some(", "v3", "=>", "Ok(", "v3", "None", "=>", "Err(", "OutOfRangeError("] := by decide +kernel
 
+/-- src/time_delta.rs:fn hours -/
+theorem src_time_delta_rs_fn_hours : C06_src_time_delta_rs_fn_hours =
+    ["v1", "i64", "->", "TimeDelta", "expect(", "TimeDelta", "try_hours(", "v1", "\"…\""] := by decide +kernel
+
+/-- src/time_delta.rs:fn is_zero -/
+theorem src_time_delta_rs_fn_is_zero : C06_src_time_delta_rs_fn_is_zero =
+    ["&", "self", "->", "bool", "self", "v1", "==", "0", "&&", "self", "v2", "==", "0"] := by decide +kernel
+
+/-- src/time_delta.rs:fn max_value -/
+theorem src_time_delta_rs_fn_max_value : C06_src_time_delta_rs_fn_max_value =
+    ["->", "TimeDelta", "MAX"] := by decide +kernel
+
 /-- src/time_delta.rs:fn microseconds -/
 theorem src_time_delta_rs_fn_microseconds : C06_src_time_delta_rs_fn_microseconds =
     ["v1", "i64", "->", "TimeDelta", "let(", "v2", "v3", "div_mod_floor_64(", "v1", "MICROS_PER_SEC", "v4", "v3", "as", "i32", "*", "NANOS_PER_MICRO", "TimeDelta", "v2", "v4"] := by decide +kernel
+
+/-- src/time_delta.rs:fn milliseconds -/
+theorem src_time_delta_rs_fn_milliseconds : C06_src_time_delta_rs_fn_milliseconds =
+    ["v1", "i64", "->", "TimeDelta", "expect(", "TimeDelta", "try_milliseconds(", "v1", "\"…\""] := by decide +kernel
+
+/-- src/time_delta.rs:fn min_value -/
+theorem src_time_delta_rs_fn_min_value : C06_src_time_delta_rs_fn_min_value =
+    ["->", "TimeDelta", "MIN"] := by decide +kernel
+
+/-- src/time_delta.rs:fn minutes -/
+theorem src_time_delta_rs_fn_minutes : C06_src_time_delta_rs_fn_minutes =
+    ["v1", "i64", "->", "TimeDelta", "expect(", "TimeDelta", "try_minutes(", "v1", "\"…\""] := by decide +kernel
 
 /-- src/time_delta.rs:fn nanoseconds -/
 theorem src_time_delta_rs_fn_nanoseconds : C06_src_time_delta_rs_fn_nanoseconds =
@@ -62,6 +98,10 @@ theorem src_time_delta_rs_fn_new : C06_src_time_delta_rs_fn_new =
 theorem src_time_delta_rs_fn_num_days : C06_src_time_delta_rs_fn_num_days =
     ["&", "self", "->", "i64", "self", "num_seconds(", "/", "SECS_PER_DAY"] := by decide +kernel
 
+/-- src/time_delta.rs:fn num_hours -/
+theorem src_time_delta_rs_fn_num_hours : C06_src_time_delta_rs_fn_num_hours =
+    ["&", "self", "->", "i64", "self", "num_seconds(", "/", "SECS_PER_HOUR"] := by decide +kernel
+
 /-- src/time_delta.rs:fn num_microseconds -/
 theorem src_time_delta_rs_fn_num_microseconds : C06_src_time_delta_rs_fn_num_microseconds =
     ["&", "self", "->", "Option", "<", "i64", ">", "v1", "try_opt!(", "self", "num_seconds(", "checked_mul(", "MICROS_PER_SEC", "v2", "self", "subsec_nanos(", "/", "NANOS_PER_MICRO", "v1", "checked_add(", "v2", "as", "i64"] := by decide +kernel
@@ -70,6 +110,10 @@ theorem src_time_delta_rs_fn_num_microseconds : C06_src_time_delta_rs_fn_num_mic
 theorem src_time_delta_rs_fn_num_milliseconds : C06_src_time_delta_rs_fn_num_milliseconds =
     ["&", "self", "->", "i64", "v1", "self", "num_seconds(", "*", "MILLIS_PER_SEC", "v2", "self", "subsec_nanos(", "/", "NANOS_PER_MILLI", "v1", "+", "v2", "as", "i64"] := by decide +kernel
 
+/-- src/time_delta.rs:fn num_minutes -/
+theorem src_time_delta_rs_fn_num_minutes : C06_src_time_delta_rs_fn_num_minutes =
+    ["&", "self", "->", "i64", "self", "num_seconds(", "/", "SECS_PER_MINUTE"] := by decide +kernel
+
 /-- src/time_delta.rs:fn num_nanoseconds -/
 theorem src_time_delta_rs_fn_num_nanoseconds : C06_src_time_delta_rs_fn_num_nanoseconds =
     ["&", "self", "->", "Option", "<", "i64", ">", "v1", "try_opt!(", "self", "num_seconds(", "checked_mul(", "NANOS_PER_SEC", "as", "i64", "v2", "self", "subsec_nanos(", "v1", "checked_add(", "v2", "as", "i64"] := by decide +kernel
@@ -77,6 +121,22 @@ theorem src_time_delta_rs_fn_num_nanoseconds : C06_src_time_delta_rs_fn_num_nano
 /-- src/time_delta.rs:fn num_seconds -/
 theorem src_time_delta_rs_fn_num_seconds : C06_src_time_delta_rs_fn_num_seconds =
     ["&", "self", "->", "i64", "if", "self", "v1", "<", "0", "&&", "self", "v2", ">", "0", "self", "v1", "+", "1", "else", "self", "v1"] := by decide +kernel
+
+/-- src/time_delta.rs:fn num_weeks -/
+theorem src_time_delta_rs_fn_num_weeks : C06_src_time_delta_rs_fn_num_weeks =
+    ["&", "self", "->", "i64", "self", "num_days(", "/", "7"] := by decide +kernel
+
+/-- src/time_delta.rs:fn seconds -/
+theorem src_time_delta_rs_fn_seconds : C06_src_time_delta_rs_fn_seconds =
+    ["v1", "i64", "->", "TimeDelta", "expect(", "TimeDelta", "try_seconds(", "v1", "\"…\""] := by decide +kernel
+
+/-- src/time_delta.rs:fn subsec_micros -/
+theorem src_time_delta_rs_fn_subsec_micros : C06_src_time_delta_rs_fn_subsec_micros =
+    ["&", "self", "->", "i32", "self", "subsec_nanos(", "/", "NANOS_PER_MICRO"] := by decide +kernel
+
+/-- src/time_delta.rs:fn subsec_millis -/
+theorem src_time_delta_rs_fn_subsec_millis : C06_src_time_delta_rs_fn_subsec_millis =
+    ["&", "self", "->", "i32", "self", "subsec_nanos(", "/", "NANOS_PER_MILLI"] := by decide +kernel
 
 /-- src/time_delta.rs:fn subsec_nanos -/
 theorem src_time_delta_rs_fn_subsec_nanos : C06_src_time_delta_rs_fn_subsec_nanos =
@@ -110,20 +170,48 @@ theorem src_time_delta_rs_fn_try_seconds : C06_src_time_delta_rs_fn_try_seconds 
 theorem src_time_delta_rs_fn_try_weeks : C06_src_time_delta_rs_fn_try_weeks =
     ["v1", "i64", "->", "Option", "<", "TimeDelta", ">", "TimeDelta", "try_seconds(", "try_opt!(", "v1", "checked_mul(", "SECS_PER_WEEK"] := by decide +kernel
 
+/-- src/time_delta.rs:fn weeks -/
+theorem src_time_delta_rs_fn_weeks : C06_src_time_delta_rs_fn_weeks =
+    ["v1", "i64", "->", "TimeDelta", "expect(", "TimeDelta", "try_weeks(", "v1", "\"…\""] := by decide +kernel
+
+/-- src/time_delta.rs:fn zero -/
+theorem src_time_delta_rs_fn_zero : C06_src_time_delta_rs_fn_zero =
+    ["->", "TimeDelta", "TimeDelta", "v1", "0", "v2", "0"] := by decide +kernel
+
+/-- src/time_delta.rs:impl Add for TimeDelta -/
+theorem src_time_delta_rs_impl_Add_for_TimeDelta : C06_src_time_delta_rs_impl_Add_for_TimeDelta =
+    ["Add", "for", "TimeDelta", "Output", "TimeDelta", "add(", "self", "v1", "TimeDelta", "->", "TimeDelta", "self", "checked_add(", "&", "v1", "expect(", "\"…\""] := by decide +kernel
+
+/-- src/time_delta.rs:impl AddAssign for TimeDelta -/
+theorem src_time_delta_rs_impl_AddAssign_for_TimeDelta : C06_src_time_delta_rs_impl_AddAssign_for_TimeDelta =
+    ["AddAssign", "for", "TimeDelta", "add_assign(", "&", "self", "v1", "TimeDelta", "v2", "self", "checked_add(", "&", "v1", "expect(", "\"…\"", "*", "self", "v2"] := by decide +kernel
+
 /-- src/time_delta.rs:impl Display -/
 theorem src_time_delta_rs_impl_Display : C06_src_time_delta_rs_impl_Display =
     ["v1", "Display", "for", "TimeDelta", "fmt(", "&", "self", "v2", "&", "v1", "Formatter", "->", "v1", "Result", "let(", "v3", "v4", "if", "self", "v5", "<", "0", "-", "*", "self", "\"-\"", "else", "*", "self", "\"\"", "write!(", "v2", "\"{}P\"", "v4", "?", "if", "v3", "v5", "==", "0", "&&", "v3", "v6", "==", "0", "return", "v2", "write_str(", "\"0D\"", "v2", "write_fmt(", "format_args!(", "\"T{}\"", "v3", "v5", "?", "if", "v3", "v6", ">", "0", "v7", "9", "v8", "v3", "v6", "loop", "v9", "v8", "/", "10", "v10", "v8", "%", "10", "if", "v10", "!=", "0", "break", "v8", "v9", "v7", "-=", "1", "v2", "write_fmt(", "format_args!(", "\".{:01$}\"", "v8", "v7", "?", "v2", "write_str(", "\"S\"", "?", "Ok(", "§", "v1", "Display", "for", "OutOfRangeError", "fmt(", "&", "self", "v2", "&", "v1", "Formatter", "->", "v1", "Result", "write!(", "v2", "\"…\""] := by decide +kernel
 
+/-- src/time_delta.rs:impl Div for TimeDelta -/
+theorem src_time_delta_rs_impl_Div_for_TimeDelta : C06_src_time_delta_rs_impl_Div_for_TimeDelta =
+    ["Div", "<", "i32", ">", "for", "TimeDelta", "Output", "TimeDelta", "div(", "self", "v1", "i32", "->", "TimeDelta", "self", "checked_div(", "v1", "expect(", "\"…\""] := by decide +kernel
+
+/-- src/time_delta.rs:impl Mul for TimeDelta -/
+theorem src_time_delta_rs_impl_Mul_for_TimeDelta : C06_src_time_delta_rs_impl_Mul_for_TimeDelta =
+    ["Mul", "<", "i32", ">", "for", "TimeDelta", "Output", "TimeDelta", "mul(", "self", "v1", "i32", "->", "TimeDelta", "self", "checked_mul(", "v1", "expect(", "\"…\""] := by decide +kernel
+
+/-- src/time_delta.rs:impl Neg for TimeDelta -/
+theorem src_time_delta_rs_impl_Neg_for_TimeDelta : C06_src_time_delta_rs_impl_Neg_for_TimeDelta =
+    ["Neg", "for", "TimeDelta", "Output", "TimeDelta", "neg(", "self", "->", "TimeDelta", "let(", "v1", "v2", "match", "self", "v2", "0", "=>", "0", "0", "v2", "=>", "1", "NANOS_PER_SEC", "-", "v2", "TimeDelta", "v3", "-", "self", "v3", "-", "v1", "v2"] := by decide +kernel
+
+/-- src/time_delta.rs:impl Sub for TimeDelta -/
+theorem src_time_delta_rs_impl_Sub_for_TimeDelta : C06_src_time_delta_rs_impl_Sub_for_TimeDelta =
+    ["Sub", "for", "TimeDelta", "Output", "TimeDelta", "sub(", "self", "v1", "TimeDelta", "->", "TimeDelta", "self", "checked_sub(", "&", "v1", "expect(", "\"…\""] := by decide +kernel
+
+/-- src/time_delta.rs:impl SubAssign for TimeDelta -/
+theorem src_time_delta_rs_impl_SubAssign_for_TimeDelta : C06_src_time_delta_rs_impl_SubAssign_for_TimeDelta =
+    ["SubAssign", "for", "TimeDelta", "sub_assign(", "&", "self", "v1", "TimeDelta", "v2", "self", "checked_sub(", "&", "v1", "expect(", "\"…\"", "*", "self", "v2"] := by decide +kernel
+
 /-- src/time_delta.rs:impl Sum -/
 theorem src_time_delta_rs_impl_Sum : C06_src_time_delta_rs_impl_Sum =
     ["<", ">", "v1", "v2", "Sum", "<", "&", "TimeDelta", ">", "for", "TimeDelta", "v3", "<", "I", "Iterator", "<", "Item", "&", "TimeDelta", ">>", "v2", "I", "->", "TimeDelta", "v2", "fold(", "TimeDelta", "zero(", "|", "v4", "v5", "|", "v4", "+", "*", "v5", "§", "v1", "v2", "Sum", "<", "TimeDelta", ">", "for", "TimeDelta", "v3", "<", "I", "Iterator", "<", "Item", "TimeDelta", ">>", "v2", "I", "->", "TimeDelta", "v2", "fold(", "TimeDelta", "zero(", "|", "v4", "v5", "|", "v4", "+", "v5"] := by decide +kernel
-
-/-- callee src/time_delta.rs:fn div_mod_floor_64 -/
-theorem callee_src_time_delta_rs_fn_div_mod_floor_64 : C06_callee_src_time_delta_rs_fn_div_mod_floor_64 =
-    ["v1", "i64", "v2", "i64", "->", "i64", "i64", "v1", "div_euclid(", "v2", "v1", "rem_euclid(", "v2"] := by decide +kernel
-
-/-- callee src/time_delta.rs:fn zero -/
-theorem callee_src_time_delta_rs_fn_zero : C06_callee_src_time_delta_rs_fn_zero =
-    ["->", "TimeDelta", "TimeDelta", "v1", "0", "v2", "0"] := by decide +kernel
 
 end Chrono.Pins.C06
